@@ -9,7 +9,7 @@ use blots_core::units::{self, ConversionType, Unit};
 use proptest::prelude::*;
 use serde::{Deserialize, Serialize};
 
-pub const RULE: &str = "exhaustive over get_all_units(): every identifier (exact resolution), upper/lower/title/swapped case variants of every identifier (resolution iff unambiguous, computed independently over the table), every identifier against the unit's first identifier (identical behaviour, bitwise), every ordered pair of identifiers of the whole table (same category: bitwise the result of the units' first identifiers; different categories: must fail), every ordered same-category pair and every same-category triple x a magnitude set (identity, there-and-back, composition), every cross-category ordered pair (must fail), SI-prefixed names vs their base (power-of-ten ratio), random non-identifiers (must fail, also with the same non-identifier on both sides and through the built-in), every ordered pair of spellings that differ only by letter case converted one after the other in one thread (the second must behave as in a fresh thread), and a sample through the `convert` built-in; thorough adds all magnitudes 0, +-1e-12..+-1e12, 7.25 and random values. Non-trivial = a law instance involving two distinct units (or an identifier that is not the unit's first); distinct by (law, identifiers, magnitude).";
+pub const RULE: &str = "exhaustive over get_all_units(): every identifier (exact resolution), upper/lower/title/swapped case variants of every identifier and every substitution of one character by another with the same lower-case form (K / KELVIN SIGN, OHM SIGN / omega, ...) (resolution iff unambiguous, computed independently over the table), every identifier against the unit's first identifier (identical behaviour, bitwise), every ordered pair of identifiers of the whole table (same category: bitwise the result of the units' first identifiers; different categories: must fail), every ordered same-category pair and every same-category triple x a magnitude set (identity, there-and-back, composition), every cross-category ordered pair (must fail), SI-prefixed names vs their base (power-of-ten ratio), random non-identifiers (must fail, also with the same non-identifier on both sides and through the built-in), every ordered pair of spellings that differ only by letter case converted one after the other in one thread (the second must behave as in a fresh thread), and a sample through the `convert` built-in; thorough adds all magnitudes 0, +-1e-12..+-1e12, 7.25 and random values. Non-trivial = a law instance involving two distinct units (or an identifier that is not the unit's first); distinct by (law, identifiers, magnitude).";
 pub const ASSUMPTIONS: &[&str] = &[
     "multi-step paths are held to a rounding bound: relative 16*eps for multiplicative (linear / reciprocal) units, absolute 32*eps*max(|values involved|, 500) for the affine temperature scales",
     "internally consistent laws cannot detect a mistyped coefficient; only the SI-prefix ratio law compares coefficients with an external table (harness prefix list)",
@@ -360,6 +360,37 @@ fn title(s: &str) -> String {
     out
 }
 
+/// all characters whose lower-case form is `low`
+fn same_lowercase(low: &str) -> Vec<char> {
+    use std::collections::HashMap;
+    use std::sync::OnceLock;
+    static MAP: OnceLock<HashMap<String, Vec<char>>> = OnceLock::new();
+    MAP.get_or_init(|| {
+        let mut m: HashMap<String, Vec<char>> = HashMap::new();
+        for cp in 0u32..0x11_0000 {
+            if let Some(c) = char::from_u32(cp) {
+                let l: String = c.to_lowercase().collect();
+                if l.chars().next() != Some(c) || l.chars().count() != 1 {
+                    m.entry(l.clone()).or_default().push(c);
+                }
+                let _ = l;
+            }
+        }
+        // a character is also in the class of its own lower-case form
+        let keys: Vec<String> = m.keys().cloned().collect();
+        for k in keys {
+            let mut it = k.chars();
+            if let (Some(c), None) = (it.next(), it.next()) {
+                m.get_mut(&k).unwrap().push(c);
+            }
+        }
+        m
+    })
+    .get(low)
+    .cloned()
+    .unwrap_or_default()
+}
+
 fn swapcase(s: &str) -> String {
     s.chars()
         .map(|c| if c.is_uppercase() { c.to_lowercase().collect::<String>() } else { c.to_uppercase().collect::<String>() })
@@ -396,6 +427,17 @@ pub fn run(ctx: &mut Ctx) {
                         .map(|(i, c)| if mask >> i & 1 == 1 { c.to_uppercase().collect::<String>() } else { c.to_lowercase().collect::<String>() })
                         .collect();
                     vars.push(v);
+                }
+            }
+            // every other character with the same lower-case form, one position at a time
+            // (K / KELVIN SIGN for k, OHM SIGN for the omegas, ...): equal after lower-casing
+            for (i, c) in chars.iter().enumerate() {
+                let low: String = c.to_lowercase().collect();
+                for alt in same_lowercase(&low) {
+                    if alt != *c {
+                        let v: String = chars.iter().enumerate().map(|(j, d)| if i == j { alt } else { *d }).collect();
+                        vars.push(v);
+                    }
                 }
             }
             vars.sort();
